@@ -32,7 +32,7 @@ Rendering produces a token list [(text, gap)] where gap describes the boundary B
   'none' no blank may be inserted.
 """
 
-PREC = {"OR": 1, "AND": 2, "NOT": 3, "=": 4, "<>": 4, "<": 4, ">": 4, "<=": 4, ">=": 4,
+PREC = {"OR": 1, "AND": 2, "NOT": 3, "=": 4, "<>": 4, "<": 4, ">": 4, "<=": 4, ">=": 4, "=<": 4, "=>": 4,
         "+": 5, "-": 5, "*": 6, "/": 6, "NEG": 7, "^": 8}
 RELOPS = ("=", "<>", "<", ">", "<=", ">=")
 
